@@ -28,6 +28,7 @@ REQUIRED_COUNTERS = {"blocked_threads_checked": {"quick": 300, "thorough": 5000}
                      "blocked_inside_exit_method": {"quick": 50, "thorough": 800},
                      "schedules": {"quick": 1500, "thorough": 15000},
                      "schedules_target_moved": {"quick": 1000, "thorough": 4000},
+                     "schedules_target_moved_at_two_points": {"quick": 1000, "thorough": 4000},
                      "retries_observed": {"quick": 20, "thorough": 200},
                      "inspect_frame_snapshots_checked": {"quick": 20000, "thorough": 120000},
                      "inspect_frame_snapshots_of_executing_frames": {"quick": 2000, "thorough": 25000},
@@ -45,7 +46,7 @@ def plan(tier, seed):
             shards.append({"interp": interp, "leg": "blocked", "seed": seed * 100 + s,
                            "n": 120 if tier == "quick" else 3000, "budget_s": 40 if tier == "quick" else 1200})
     for interp in ("3.12", "3.11"):
-        for script in (0, 1, 2, 3):
+        for script in (0, 1, 2, 3, 4):
             for part in range(2 if tier == "quick" else 4):
                 shards.append({"interp": interp, "leg": "schedules", "script": script, "part": part,
                                "parts": 2 if tier == "quick" else 4, "seed": seed,
@@ -487,7 +488,25 @@ def script3(t):
     t_main()
 
 
-SCRIPTS = [script0, script1, script2, script3]
+def script4(t):
+    """a loop whose body holds two managers at one gate and none at the next: moving one gate leaves the
+    with block, moving two comes back to the *same instruction* of the next iteration (same stack depth,
+    other objects) - what a reader that re-checks only f_lasti cannot tell from not having moved"""
+    M = t.M
+    gate = t.gate
+
+    def t_main():
+        for i in range(12):
+            with M(60 + i) as a, M(160 + i):  # noqa
+                gate("in")
+            gate("out")
+        gate("end")
+
+    t.codes.add(t_main.__code__)
+    t_main()
+
+
+SCRIPTS = [script0, script1, script2, script3, script4]
 
 
 
@@ -636,7 +655,14 @@ def schedules_leg(spec, res):
             if not PLAN["every"]:
                 return
         PLAN["fired"] += 1
-        if PLAN["every"] or PLAN["fired"] == PLAN["fire_at"]:
+        second = PLAN.get("second")
+        if second is not None and PLAN["fired"] == second[0]:
+            before = tgt.pos
+            tgt.advance(second[1])
+            if tgt.pos != before:
+                PLAN["moved"] = True
+                PLAN["moved_twice"] = True
+        elif PLAN["every"] or PLAN["fired"] == PLAN["fire_at"]:
             before = tgt.pos
             tgt.advance(PLAN["j"])
             if tgt.pos != before:
@@ -658,7 +684,7 @@ def schedules_leg(spec, res):
                 if d.ident == tgt.thread.ident:
                     PLAN["ident_reused"] = True
 
-    def run_case(park, fire_at, j, every=False, decoy=False):
+    def run_case(park, fire_at, j, every=False, decoy=False, second=None):
         tgt = Target(script)
         tgt.start()
         tgt.advance(park - 1)
@@ -666,7 +692,7 @@ def schedules_leg(spec, res):
         snap_state.update(target=tgt, p_before=p_before)
         PLAN.clear()
         PLAN.update(fire_at=fire_at, j=j, fired=0, every=every, target=tgt, kinds={}, attempts={}, moved=False,
-                    decoy=decoy)
+                    decoy=decoy, second=second)
         _verifhooks.callback = on_point
         old = sys.stderr
         sys.stderr = io.StringIO()
@@ -688,7 +714,9 @@ def schedules_leg(spec, res):
         res.count("schedules")
         if PLAN["moved"]:
             res.count("schedules_target_moved")
-            res.nontrivial(interp, spec["script"], park, fire_at, j, every, decoy)
+            res.nontrivial(interp, spec["script"], park, fire_at, j, every, decoy, second)
+        if PLAN.get("moved_twice"):
+            res.count("schedules_target_moved_at_two_points")
         if any(v > 1 for v in PLAN["attempts"].values()):
             res.count("retries_observed")
         for kname, v in PLAN["kinds"].items():
@@ -746,7 +774,7 @@ def schedules_leg(spec, res):
         del decoys[:]
         if problems:
             res.violation(kind="racing snapshot", script=spec["script"], park=park, fire_at=fire_at, j=j, every=every,
-                          decoy=decoy, problems=problems[:3], interp=interp)
+                          decoy=decoy, second=second, problems=problems[:3], interp=interp)
         return PLAN["fired"]
 
     cases = []
@@ -758,6 +786,11 @@ def schedules_leg(spec, res):
             cases.append((park, fire_at, ngates + 5, False, True))
         cases.append((park, None, 1, True, False))
         cases.append((park, None, 2, True, False))
+        # the target moves at two different hook points (away, and on - possibly back to where it was)
+        for fire_at in range(1, spec["max_fire"] + 1):
+            for gap in (1, 2, 3):
+                for j1, j2 in ((1, 1), (1, 2), (2, 1), (2, 2), (1, 3), (3, 1)):
+                    cases.append((park, fire_at, j1, False, False, (fire_at + gap, j2)))
     cases = [c for i, c in enumerate(cases) if i % spec["parts"] == spec["part"]]
     for c in cases:
         if budget.over():
